@@ -192,9 +192,14 @@ def strategies():
     def pair(draw):
         t = draw(base)
         a = draw(desc(text=t))
-        if draw(st.booleans()):
+        mode = draw(st.integers(0, 5))
+        if mode <= 2:
             # same underlying compact text, different class / spelling
             t2 = draw(st.sampled_from([t, t.lower(), " " + t, norm(t)]))
+        elif mode == 3:
+            # nearly the same text: one is the other plus / minus a short suffix (XXX, X, 0, 00 ...) - distinct strings
+            suf = draw(st.sampled_from(["XXX", "X", "0", "00", "XX", "1"]))
+            t2 = draw(st.sampled_from([t + suf, t[:-len(suf)] if t.endswith(suf) else t + suf, norm(t) + suf]))
         else:
             t2 = draw(base)
         b = draw(desc(text=t2))
@@ -344,6 +349,11 @@ def run(ctx):
     ctx.pmap(shard_copies, [(cc, ctx.seed, ctx.tier) for cc in o.countries()])
     bics = sorted({e["bic"] for e in oreg.load_banks() if e.get("bic")})[::ctx.pick(200, 5)]
     for b in bics:
+        stem = b[:8]
+        for other in (stem, stem + "XXX"):
+            for ka, kb in (("bic", "bic"), ("bic", "str"), ("str", "bic"), ("bic", "iban")):
+                check_pair(ctx.rec, (ka, b), (kb, other), "registry-8-vs-11")
+                ctx.rec.case("pair-8-vs-11", (ka, b, kb, other))
         check_copies(ctx.rec, ("bic", b), True, "registry")
         ctx.rec.case("copy-bic-valid", ("bic", b), {"obj": ["bic", b]} if b is bics[0] else None)
         bad = b[:3] + "-" + b[4:] + "Q"
@@ -360,5 +370,5 @@ def run(ctx):
         check_cross_process(ctx.rec, descs, hs)
         ctx.rec.evals += len(descs)
     ctx.rec.sample("cross-process-object", {"objects": len(descs), "first": list(descs[0])})
-    ctx.require_classes("copy-subclass", "copy-degenerate", "cross-process-object", "copy-container", "copy-container-with-sibling-country", "pair-equal-cross-class", "pair-different", "sort-list", "copy-iban-valid", "copy-iban-unvalidated",
+    ctx.require_classes("pair-8-vs-11", "copy-subclass", "copy-degenerate", "cross-process-object", "copy-container", "copy-container-with-sibling-country", "pair-equal-cross-class", "pair-different", "sort-list", "copy-iban-valid", "copy-iban-unvalidated",
                         "copy-bban_of_iban-valid", "copy-bban-direct", "copy-bic-valid", "copy-bic-unvalidated")
